@@ -52,6 +52,7 @@ class Zoo(object):
         self.cassettes = []
         self._names = {}
         self._dirs = {}
+        self._ctor = {}
         self._tmp = None
         self.fake = None
 
@@ -68,6 +69,7 @@ class Zoo(object):
                 d = os.path.join(self._tmp, 'cassette%d' % len(self.cassettes))
                 self._add(wrap(FileBasedTapeCassette)(d), 'file')
                 self._dirs[id(self.cassettes[-1])] = d
+                self._ctor[id(self.cassettes[-1])] = lambda d=d: FileBasedTapeCassette(d)
             elif kind == 's3':
                 from playback.tape_cassettes.s3.s3_tape_cassette import S3TapeCassette
                 if self.fake is None:
@@ -79,6 +81,7 @@ class Zoo(object):
                         p, extra = p
                         kw.update(extra)
                     self._add(wrap(S3TapeCassette)(BUCKET, key_prefix=p, **kw), 's3[%r]' % p)
+                    self._ctor[id(self.cassettes[-1])] = lambda p=p, kw=dict(kw): S3TapeCassette(BUCKET, key_prefix=p, **kw)
             else:
                 raise ValueError(kind)
         return self
@@ -92,6 +95,12 @@ class Zoo(object):
 
     def kind(self, cas):
         return self._names[id(cas)].split('[')[0]
+
+    def second_instance(self, cas):
+        """Another cassette object over the same storage (a recording service and a playback tool sharing a directory
+        or a bucket prefix); the in-memory cassette has no shared storage and is returned itself."""
+        make = self._ctor.get(id(cas))
+        return make() if make else cas
 
     def snapshot(self, cas):
         """Serialised store content, comparable before/after."""
